@@ -549,6 +549,9 @@ func c07Cases(tier string) int {
 }
 
 func c07Run(c *Case) {
+	if c.Idx == 0 {
+		round8Hand(c, "C07")
+	}
 	mat := c07Matrix()
 	i := c.Idx
 	switch {
